@@ -139,6 +139,7 @@ Theorem c17_small_outside_classes_serialisable :
        no_panic (final Nat.eqb directed 200 c0 sched) = true /\
        all_done (final Nat.eqb directed 200 c0 sched) = true /\
        (exists s : list nat,
+          In s (explore Nat.eqb directed 200 c0 []) /\
           serial_from Nat.eqb directed c0 None false s = true /\
           outcome_eqb Nat.eqb (final Nat.eqb directed 200 c0 s) (final Nat.eqb directed 200 c0 sched) = true).
 Proof. exact c17_small_outside_classes_serialisable. Qed.
